@@ -1,0 +1,68 @@
+//! `cfg(libp2p_verif)` visibility hook for verification property C08 (concurrent / smart
+//! dialing). Only constructs and polls the private `ConcurrentDial` / `SmartDial` futures;
+//! compiled out unless `--cfg libp2p_verif` is given.
+
+use std::{
+    future::Future,
+    num::NonZeroU8,
+    pin::Pin,
+    task::{Context, Poll},
+};
+
+use futures::future::BoxFuture;
+use libp2p_core::muxing::StreamMuxerBox;
+use libp2p_identity::PeerId;
+
+use crate::{
+    Multiaddr,
+    connection::pool::concurrent_dial::{ConcurrentDial, PendingDial, SmartDial},
+    transport::TransportError,
+};
+
+/// Same type as the private `concurrent_dial::DialFuture`.
+pub type DialFut = BoxFuture<
+    'static,
+    (
+        Multiaddr,
+        Result<(PeerId, StreamMuxerBox), TransportError<std::io::Error>>,
+    ),
+>;
+
+/// `Ok((winner, addresses of the errors reported with it))` or `Err(addresses of all errors)`,
+/// in the order of the private `DialResult`.
+pub type Outcome = Result<(Multiaddr, Vec<Multiaddr>), Vec<Multiaddr>>;
+
+pub struct Dial(Inner);
+
+enum Inner {
+    Concurrent(ConcurrentDial),
+    Smart(SmartDial),
+}
+
+fn pending(dials: Vec<(Multiaddr, DialFut)>) -> Vec<PendingDial> {
+    dials
+        .into_iter()
+        .map(|(addr, fut)| PendingDial { addr, fut })
+        .collect()
+}
+
+pub fn concurrent(dials: Vec<(Multiaddr, DialFut)>, concurrency_factor: NonZeroU8) -> Dial {
+    Dial(Inner::Concurrent(ConcurrentDial::new(pending(dials), concurrency_factor)))
+}
+
+pub fn smart(dials: Vec<(Multiaddr, DialFut)>) -> Dial {
+    Dial(Inner::Smart(SmartDial::new(pending(dials))))
+}
+
+impl Dial {
+    pub fn poll(&mut self, cx: &mut Context<'_>) -> Poll<Outcome> {
+        let r = match &mut self.0 {
+            Inner::Concurrent(d) => Pin::new(d).poll(cx),
+            Inner::Smart(d) => Pin::new(d).poll(cx),
+        };
+        r.map(|res| match res {
+            Ok((addr, _conn, errors)) => Ok((addr, errors.into_iter().map(|(a, _)| a).collect())),
+            Err(errors) => Err(errors.into_iter().map(|(a, _)| a).collect()),
+        })
+    }
+}
